@@ -355,7 +355,11 @@ class Configuration:  # pylint: disable=too-many-public-methods
         return self.__get_table_constructor_argument_pack(data, "out", self.__out_header)
 
     def get_intra_table_constructor_argument_pack(self, data: List[Any]) -> Dict[str, Any]:
-        return self.__get_table_constructor_argument_pack(data, "intra", self.__intra_header)
+        pack: Dict[str, Any] = self.__get_table_constructor_argument_pack(data, "intra", self.__intra_header)
+        # spot_price is optional in the intra_header section, but it's a mandatory parameter of the IntraTransaction constructor
+        # (which accepts None for it): if its column is not configured treat it like an empty cell.
+        pack.setdefault(Keyword.SPOT_PRICE.value, None)
+        return pack
 
     def get_in_table_column_position(self, input_parameter: str) -> int:
         self.type_check_string("input_parameter", input_parameter)
